@@ -1,16 +1,12 @@
 """C02 — objects built with the public constructors serialise to the exact spec JSON.
 
-What is proved in Lean (all inputs): the node-level facts the round trip rests on — the class
-function reads exactly the declared wire names and fails on a missing required one
-(Props/Conv.lean), the unstructure function writes exactly the non-omitted wire names
-(`unstructFields_keys`), the null rule per attribute (C10), range validators (C12), enum handling
-(C13) — plus kernel-checked side conditions on the regenerated environment: every reachable union
-has parsing support, every hook probes declared keys only, each open known finding is reproduced by
-the model on its witness.  What is NOT proved: the composition of these into the round-trip theorem
-for arbitrary nesting and every hook decision (C02_partial in DESIGN.md).  That part is decided by
-running the model's executable definitions and the real converter on the same generated valid
-values (every root type: min, max, random; every alternative of every union occurrence, nested
-unions, heterogeneous arrays) and by the direct round-trip oracle on the real converter.
+Proved in Lean for ALL inputs, instantiated per run: `C02_constructor_path` (Props/C01.lean): the
+constructor-built object is a typed reading `v` of `j` (the class of the intended alternative at each union);
+`unstructure(v)` succeeds with `j'`, `nrel T j j'` (keys are the declared wire names, shapes kept, unset
+optional properties omitted, null-admitting and literal ones present); `v` is a typed reading of `j'` too, so
+`j'` structures successfully (T1) into a typed reading whose serialisation `j''` satisfies `nrel T j' j''`.
+Kernel obligations per run as for C01.  Partial: `j'' = j'` literally (not only up to `nrel`) and the tie of
+`rep` to metamodel validity are decided by the correspondence stream and the constructor-path oracle.
 """
 import json
 
@@ -40,7 +36,7 @@ def ops_fn(S):
 
 def run(ctx):
     ctx.level = "other"
-    ctx.extra["explanation"] = ("partial Lean proof (node-level theorems + kernel-checked side conditions, counted under obligations) "
+    ctx.extra["explanation"] = ("Lean proof of the round-trip theorem for all values with a typed reading (T1, T2; kernel-checked table obligations per run) "
                                 "+ model-vs-implementation correspondence + direct oracle on the real converter; see level_note")
     ctx.rule = ("metamodel-valid values of every root type (387 structures, 22 aliases, 164 message classes): minimal, maximal, "
                 "seeded random (optional subsets, union alternatives, custom enum values, LSPAny payloads, boundary integers, non-ASCII), "
@@ -48,7 +44,7 @@ def run(ctx):
                 "round trip through Lean model and real converter compared; oracle = type-directed comparison up to the null rule; "
                 "distinct = distinct (root, JSON text); non-trivial = all (each reaches at least one class function)")
     convprop.run(ctx, "C02", ops_fn=ops_fn, inst_fn=lambda: [[("Inst", INST)]],
-                 theorems=["C02_probes_declared", "C02_no_forbid"],
+                 theorems=["C02_probes_declared", "C02_no_forbid"], total=True,
                  assumptions=["an explicit JSON null for an optional property whose type is not null-admitting reads as unset and is left out (forced by C10); JSON numbers compare numerically (1 == 1.0)"])
 
 
